@@ -189,8 +189,10 @@ CLAIMED: dict[str, tuple[str, str, str, str, str]] = {
         "Decides structural clauses of instantiation: every self-rebuilding method of the type/parameter classes passes every "
         "defaulted constructor parameter (no field silently reset by a copy); the Instantiator's de Bruijn arithmetic is right "
         "on all (index, #instantiated) pairs up to 4x3 for type and const variables and refuses to go under binders; "
-        "compile_variable_idx is the dense index for all monomorphisation masks up to length 4; instantiate_partial "
-        "re-indexes, instantiates bounds/comptime args and sets `preserve`. Run-time results and HUGR validity are not decided.",
+        "compile_variable_idx is the dense index for all monomorphisation masks up to length 4; instantiate_partial, interpreted "
+        "on all 156 argument lists of length <= 3 over {stays, type, tuple, None, const}, keeps the remaining parameters in order "
+        "and densely re-indexed, refers to a kept parameter by its NEW index, instantiates bounds with the prefix, preserves "
+        "tuples/None, transforms inputs/output/comptime args and keeps the flags. Run-time results and HUGR validity are not decided.",
         "Trusted: ast parser, gsa/absint/pyeval.py. Two structural copies that drop a field without a demonstrated "
         "consequence are listed as exemptions with their reason (printed as notes on every run).",
         "field-preservation table check + finite abstract evaluation of index arithmetic",
@@ -202,8 +204,9 @@ CLAIMED: dict[str, tuple[str, str, str, str, str]] = {
         "trees on all ordered pairs of 35 type shapes and 3 const shapes (every constructor, nominal discriminator, arity, "
         "type-vs-const argument, ownership flags on linear/non-linear inputs, fresh/repeated/solved inference variables, depth "
         "<= 2) x 3 starting substitutions = 3702 pairs, and compared with a reference unifier: same success/failure, returned "
-        "substitution unifies and extends the start, no crash/non-termination; plus constructor exhaustiveness of the match. "
-        "Most-generality and unbounded nesting are not decided.",
+        "substitution unifies and extends the start, no crash/non-termination; plus constructor exhaustiveness of the match; plus "
+        "a def-use rule for the callers: in every loop that checks parts one by one and merges their solutions, the expected "
+        "type of the next part reads the accumulated substitution. Most-generality and unbounded nesting are not decided.",
         "Trusted: ast parser, gsa/absint/pyeval.py, the 40-line reference unifier in rules/C12.py. Bounded: shapes up to depth 2.",
         "bounded-exhaustive abstract evaluation of the unifier against a reference + exhaustiveness table",
         "DESIGN §5 C12",
@@ -215,7 +218,8 @@ CLAIMED: dict[str, tuple[str, str, str, str, str]] = {
         "objects, memo decorators) in both packages is enumerated and must be in a reviewed table keyed by the writing "
         "function (decoration-time registration, name counters, the C23/C33 save-restore pairs, ...); every compile re-checks "
         "from a reset engine with a fresh context; compile-phase mutations of checked objects are guarded; ambient state set by "
-        "context managers is restored in finally (two reviewed exceptions). Equality of the HUGRs of two runs is not decided.",
+        "context managers is restored in finally (two reviewed exceptions); no registration into DEF_STORE is conditional on what "
+        "the store or an engine cache already holds. Equality of the HUGRs of two runs is not decided.",
         "Trusted: ast parser; writes are recognised syntactically (attribute/subscript stores, mutating container methods, "
         "next() on counters, register_* calls); aliasing of a persistent object through a local variable is not tracked.",
         "MOD-style who-may-write enumeration against a reviewed table + must-call ordering on the CFG",
@@ -227,7 +231,9 @@ CLAIMED: dict[str, tuple[str, str, str, str, str]] = {
         "called before its results are used in all three callers, the set of locals built from all blocks, truth tables of the "
         "two 'not defined' predicates of check_bb (entry block and along edges) over the membership atoms, every successor edge "
         "incl. dummy ones examined, and two CFG-construction rules (dead code hangs off the jumping block; symmetric pruning). "
-        "That the CFG has exactly Python's paths, and the path-dependent-type clause (check_rows_match), are not decided.",
+        "Path-dependent types: check_rows_match, interpreted on all pairs of rows over <= 3 names x 2 types in every order, raises "
+        "iff some variable's type differs, and check_cfg calls it for revisited blocks. That the CFG has exactly Python's paths is "
+        "not decided.",
         "Trusted: ast parser; lexical guard extraction (if/elif/else, early continue/raise) as the condition for reaching a raise; "
         "diagnostic-flavour guards are treated existentially.",
         "guard truth tables + def-before-use/dominance on the CFG + dataflow-framework obligations (shared with C09)",
@@ -282,7 +288,10 @@ CLAIMED: dict[str, tuple[str, str, str, str, str]] = {
         "variable sort order, by a 4-row truth table over (copyable, droppable); (4) return variables are prepended to the exit "
         "row and every predecessor row alike; (5) DFContainer pack/unpack of struct/tuple places, interpreted on 28 symbolic "
         "place shapes (nesting <= 2, every linear/non-linear leaf mix): only leaves bound after a store, pack mirrors unpack in "
-        "order and types, no linear leaf stays bound after packing, re-assignment drops the cached aggregate wire.",
+        "order and types, no linear leaf stays bound after packing, re-assignment drops the cached aggregate wire; (6) the tail of "
+        "compile_bb that computes the block outputs, interpreted on 288 symbolic signatures (1-2 successors, rows over variables of "
+        "every copy/drop class in two source orders): what the block passes to successor i is exactly sort_vars(output_rows[i]), "
+        "the order in which that successor declares its inputs.",
         "Trusted: ast parser, gsa/absint/pyeval.py; the HUGR builder is modelled as a recorder of (op, inputs, outputs).",
         "stage-to-stage set inclusion (emitted node classes vs handlers) + truth table + abstract interpretation of place wiring",
         "DESIGN §5 C01",
